@@ -68,7 +68,9 @@ class Fusion:
         # rank
         fused_ranks: List[str]
         if space_ranks:
-            fused_ranks = loop_ranks[:loop_ranks.index(space_ranks[0])]
+            # Note: the space ranks may be listed in any order
+            first_space = min(loop_ranks.index(rank) for rank in space_ranks)
+            fused_ranks = loop_ranks[:first_space]
         else:
             fused_ranks = loop_ranks
 
